@@ -95,6 +95,9 @@ CHECKS = {
  "C31": dict(cat="exploration", tech="differential fuzzing: every text parsed by the same ANTLR interpreter in SLL and in LL prediction mode over the repository's shipped ATN; corpus + Hypothesis-generated scripts + token-level mutations + random text; complete outputs compared",
    text="For all corpus scripts, generated scripts of five grammars plus hand-written sentences for rare rules, their token mutations and random token soup: accept/reject, the whole parse tree (rules, alternatives, tokens, error nodes), the first error position and message, and the comments are identical in both prediction modes; profiling counters show which cases exercised ambiguous / multi-token decisions.",
    note="TRUSTED BASE: ANTLR 4.11.1 Java runtime over the ATN embedded in the repository's generated C++ parser, not the C++ runtime's SLL implementation and not do_parse itself (bindings.cpp cannot be compiled here). Sentences are not an exhaustive ATN walk; rules never exercised are listed in the evidence. No seeded mutants: the grammar cannot be regenerated offline.", ref="§3 C31, §4"),
+ "C15": dict(cat="exploration", tech="differential property testing across engine configurations: each generated / corpus / bulk (script, inputs) case is run under the reference configuration twice and under sampled settings of VTL_THREADS x VTL_USE_IN_MEMORY_DB x VTL_MEMORY_LIMIT x VTL_TEMP_DIRECTORY; results compared as sets of datapoints",
+   text="Small cases from six generators (clauses, aggregations, set operators, joins, analytic functions with total orderings, dataset expressions) and corpus cases, plus 27 bulk scripts over 2x10^5-row (thorough 10^6-row) shuffled inputs (group aggregations, analytic first/lag/running/rank/window, joins, all set operators, clauses, validation, time series, multi-statement): identical datapoints on repetition and under 12 other configurations whenever the runs complete.",
+   note="Each case samples 2-3 of the 12 non-reference configurations; resource errors under a reduced memory limit are inconclusive. Bulk values are dyadic so sums are exact; otherwise relative tolerance 1e-9. Absence of nondeterminism is not established beyond 10^6 rows / 16 threads.", ref="§3 C15"),
 }
 NOT_YET = "check not built yet in this session (work in progress, see DESIGN.md §5)"
 
